@@ -327,21 +327,26 @@ Proof.
   - rewrite (L m) in Hm; [discriminate|]. pose proof (tick_in_horizon sp m). lia.
 Qed.
 
-Theorem due_of_match : forall sp m, matches sp m = true -> due sp m = true /\ next_time sp (60 * m - 1) = m.
+Theorem due_of_match : forall sp m, matches sp m = true -> due sp m = true /\ next sp (60 * m - 1) = Some m.
 Proof.
-  intros sp m Hm. unfold due, next_time. rewrite (next_of_match sp m Hm). split; [apply Z.leb_refl | reflexivity].
+  intros sp m Hm. unfold due. rewrite (next_of_match sp m Hm). split; [apply Z.leb_refl | reflexivity].
 Qed.
 
-(* C09_due: for a schedule with an activation within the horizon, the entry is invoked at tick m iff it fires at m *)
-Theorem due_iff_matches : forall sp m, next sp (60 * m - 1) <> None ->
-  (due sp m = true <-> matches sp m = true).
+(* C09_due: the entry is invoked at tick m iff the schedule fires at m - for every schedule *)
+Theorem due_iff_matches : forall sp m, due sp m = true <-> matches sp m = true.
 Proof.
-  intros sp m Hn. split.
-  - intro Hd. unfold due, next_time in Hd.
-    destruct (next sp (60 * m - 1)) as [x|] eqn:E; [|congruence].
+  intros sp m. split.
+  - intro Hd. unfold due in Hd.
+    destruct (next sp (60 * m - 1)) as [x|] eqn:E; [|discriminate].
     destruct (next_some _ _ _ E) as (Hx & Px & _). rewrite next_lo_tick in Hx.
     apply Z.leb_le in Hd. assert (x = m) by lia. subst. assumption.
   - intro Hm. apply due_of_match. assumption.
+Qed.
+
+Lemma due_matches : forall sp m, due sp m = matches sp m.
+Proof.
+  intros sp m. destruct (matches sp m) eqn:E; [apply due_iff_matches; assumption|].
+  destruct (due sp m) eqn:D; [|reflexivity]. apply due_iff_matches in D. congruence.
 Qed.
 
 Lemma next_not_none_iff : forall sp m, next sp (60 * m - 1) <> None <->
@@ -353,22 +358,20 @@ Proof.
   - intros (n & Hn & Pn) E. rewrite E in L. unfold least in L. rewrite (L n Hn) in Pn. discriminate.
 Qed.
 
-(* F9a: without an activation in the horizon the zero time is returned, which is not after the tick:
-   the entry is due at EVERY tick although it never fires. *)
-Theorem due_of_none : forall sp m, next sp (60 * m - 1) = None -> zero_minute <= m ->
-  due sp m = true /\ matches sp m = false.
+(* the former F9a: a schedule without activation in the horizon is never due (the zero time is skipped) *)
+Theorem due_of_none : forall sp m, next sp (60 * m - 1) = None -> due sp m = false /\ matches sp m = false.
 Proof.
-  intros sp m E Hm. split.
-  - unfold due, next_time. rewrite E. apply Z.leb_le. assumption.
+  intros sp m E. split.
+  - unfold due. rewrite E. reflexivity.
   - apply (next_none _ _ E). rewrite next_lo_tick. pose proof (tick_in_horizon sp m). lia.
 Qed.
 
 Definition feb30 : spec := match parse "0 0 30 2 *" with POk sp => sp | _ => Build_spec 0 0 0 0 0 0 end.
 
-Theorem due_refuted : exists sp m, parse "0 0 30 2 *" = POk sp /\ matches sp m = false /\ due sp m = true.
-Proof. exists feb30, 28589040. vm_compute. repeat split. Qed.
+Example due_former_f9a : parse "0 0 30 2 *" = POk feb30 /\ next feb30 (60 * 28589040 - 1) = None /\ due feb30 28589040 = false.
+Proof. vm_compute. repeat split. Qed.
 
-(* satisfiability of the premise of due_iff_matches, on both sides of the equivalence *)
+(* both sides of the equivalence on a concrete schedule *)
 Example due_premise_sat :
   exists sp, parse "*/15 3 * * 1-5" = POk sp /\
     next sp (60 * 28589040 - 1) <> None /\ next sp (60 * 28588500 - 1) = Some 28588500 /\
